@@ -26,8 +26,10 @@ import (
 
 	"github.com/cloudflare/pint/internal/checks"
 	"github.com/cloudflare/pint/internal/config"
+	"github.com/cloudflare/pint/internal/diags"
 	"github.com/cloudflare/pint/internal/discovery"
 	pintgit "github.com/cloudflare/pint/internal/git"
+	"github.com/cloudflare/pint/internal/output"
 	"github.com/cloudflare/pint/internal/parser"
 	"github.com/cloudflare/pint/internal/reporter"
 )
@@ -40,6 +42,31 @@ type probObs struct {
 	Summary  string `json:"summary,omitempty"`
 	DiagLo   int    `json:"diag_lo,omitempty"` // smallest / largest line of any diagnostic position (0 = none)
 	DiagHi   int    `json:"diag_hi,omitempty"`
+	// InjectDiagnostics on this problem's diagnostics (only when it has some): the lines of every diagnostic's
+	// positions, and the source line numbers the real function printed (InjPanic: it panicked)
+	DiagLines [][]int `json:"diag_lines,omitempty"`
+	InjLines  []int   `json:"inject_lines,omitempty"`
+	InjPanic  bool    `json:"inject_panic,omitempty"`
+	InjRun    bool    `json:"inject_run,omitempty"`
+}
+
+var reInjLine = regexp.MustCompile(`^ *(\d+) \| `)
+
+// injectObserved runs the real diags.InjectDiagnostics (no colour) and extracts the printed source line numbers.
+func injectObserved(content string, ds []diags.Diagnostic) (lines []int, panicked bool) {
+	defer func() {
+		if recover() != nil {
+			panicked = true
+		}
+	}()
+	out := diags.InjectDiagnostics(content, ds, output.None)
+	for _, l := range strings.Split(out, "\n") {
+		if m := reInjLine.FindStringSubmatch(l); m != nil {
+			n, _ := strconv.Atoi(m[1])
+			lines = append(lines, n)
+		}
+	}
+	return lines, false
 }
 
 type entryObs struct {
@@ -111,6 +138,7 @@ func runPipeline(path string, strict bool, schema parser.Schema, names model.Val
 		defer gen.Stop()
 		res.Plain = true
 		res.TotalLines = -1
+		fileContent, _ := os.ReadFile(path)
 		var reports []reporter.Report
 		for _, entry := range entries {
 			if entry.File != nil {
@@ -154,6 +182,17 @@ func runPipeline(path string, strict bool, schema parser.Schema, names model.Val
 								po.DiagHi = pr.Line
 							}
 						}
+					}
+					if len(p.Diagnostics) > 0 {
+						for _, d := range p.Diagnostics {
+							var ls []int
+							for _, pr := range d.Pos {
+								ls = append(ls, pr.Line)
+							}
+							po.DiagLines = append(po.DiagLines, ls)
+						}
+						po.InjRun = true
+						po.InjLines, po.InjPanic = injectObserved(string(fileContent), p.Diagnostics)
 					}
 					res.Problems = append(res.Problems, po)
 				}
